@@ -52,6 +52,7 @@ type ROp struct {
 	Typ uint16 `json:"typ,omitempty"`
 	D   int64  `json:"d,omitempty"`   // sleep, ns
 	Dup bool   `json:"dup,omitempty"` // PushMessage of a distinct message object that equals the previous PushMessage's message in every field (type, sequence, raw text)
+	Decoy bool `json:"decoy,omitempty"` // Push: the record's text quotes another well-formed audit header, with another sequence number, after its own
 	Pre bool   `json:"pre,omitempty"` // PushMessage of a message object that auparse.Parse produced before the first call (an application that parses, queues, then pushes)
 }
 
@@ -744,7 +745,7 @@ func genStream(r *core.Rng, p *RPlan, tilt int, fired []int) []ROp {
 		if r.Chance(1, 4) {
 			k = opPushRaw
 		}
-		ops = append(ops, ROp{K: k, Off: rc.off, Typ: rc.typ})
+		ops = append(ops, ROp{K: k, Off: rc.off, Typ: rc.typ, Decoy: k == opPushRaw && r.Chance(1, 3)})
 	}
 	return genTail(r, p, ops, fired)
 }
